@@ -231,3 +231,256 @@ pub fn print_exec(ex: &Exec, out: &mut impl std::io::Write) {
     }
     if ex.deadlock { let _ = writeln!(out, "X deadlock"); }
 }
+
+// ---------------------------------------------------------------------------------------
+// C10 addition (append-only): an operation that is abandoned at a chosen gated access
+// ("the process died inside the call"): the thread unwinds out of the call without performing
+// that access and without parking at it; what it wrote before stays in shared memory.
+// ---------------------------------------------------------------------------------------
+thread_local! { static FUSE: Cell<Option<usize>> = const { Cell::new(None) }; }
+
+/// panic payload that marks an abandoned operation
+pub struct Abandoned;
+
+fn hook_before_fuse(a: &Access) {
+    if TID.with(|c| c.get()).is_some() && !a.file.ends_with("iceoryx2-log/log/src/lib.rs") {
+        match FUSE.with(|f| f.get()) {
+            Some(0) => { FUSE.with(|f| f.set(None)); std::panic::resume_unwind(Box::new(Abandoned)); }
+            Some(n) => FUSE.with(|f| f.set(Some(n - 1))),
+            None => {}
+        }
+    }
+    hook_before(a);
+}
+
+/// like `install`, with support for `with_fuse`
+pub fn install_with_fuse() { verif_gate::set_hooks(hook_before_fuse, hook_after); }
+
+/// runs `f`; its (k+1)-th gated access (accesses of the logger's level global not counted) is
+/// not performed: the call is abandoned there and `None` is returned.  `Some(r)` if `f` needs at
+/// most k accesses.
+pub fn with_fuse<R>(k: usize, f: impl FnOnce() -> R) -> Option<R> {
+    FUSE.with(|c| c.set(Some(k)));
+    let r = std::panic::catch_unwind(std::panic::AssertUnwindSafe(f));
+    FUSE.with(|c| c.set(None));
+    match r {
+        Ok(v) => Some(v),
+        Err(e) => if e.is::<Abandoned>() { None } else { std::panic::resume_unwind(e) },
+    }
+}
+
+// ---------------------------------------------------------------------------------------
+// C05 addition (append-only): blocking is modelled, not executed.  A gated thread declares
+// itself blocked until a predicate over shared memory holds (`block_until`); the controller
+// `run_threads_b` does not schedule it until a step of another thread has made the predicate
+// true, and an execution in which only blocked threads remain ends with the verdict
+// "blocked-forever" (ExecB::blocked_forever, printed as `X blocked-forever t`) instead of a
+// deadlock timeout.  `gated_op` makes one arbitrary atomic section (an operation of a MODEL
+// object implemented in a harness, e.g. a trigger) exactly one scheduler step with a site.
+// ---------------------------------------------------------------------------------------
+type Pred = Box<dyn Fn() -> bool + Send>;
+struct BShared { preds: Mutex<Vec<Option<Pred>>>, abort: Mutex<Vec<bool>> }
+thread_local! { static BSH: std::cell::RefCell<Option<Arc<BShared>>> = const { std::cell::RefCell::new(None) }; }
+
+/// panic payload of a thread that stayed blocked until the end of the execution
+pub struct BlockedForever;
+
+/// Called by a gated thread that would sleep: returns at once if `pred()` holds, otherwise the
+/// thread is not schedulable until `pred()` holds (evaluated by the controller between steps,
+/// when no thread runs).  Under `run_threads` (no blocking support) and on ungated threads it
+/// spins with yield.
+pub fn block_until(pred: impl Fn() -> bool + Send + 'static) {
+    if pred() { return; }
+    let t = TID.with(|c| c.get());
+    let bsh = BSH.with(|s| s.borrow().clone());
+    let (Some(t), Some(bsh)) = (t, bsh) else { while !pred() { std::thread::yield_now(); } return; };
+    let sh = SH.with(|s| s.borrow().clone()).unwrap();
+    let mut st = sh.m.lock().unwrap();
+    bsh.preds.lock().unwrap()[t] = Some(Box::new(pred));
+    sh.cv.notify_all();
+    loop {
+        if bsh.abort.lock().unwrap()[t] {
+            drop(st);
+            // leave the harness thread: nothing it does from here on is gated or logged
+            TID.with(|c| c.set(None));
+            std::panic::resume_unwind(Box::new(BlockedForever));
+        }
+        if bsh.preds.lock().unwrap()[t].is_none() { break; }
+        st = sh.cv.wait(st).unwrap();
+    }
+}
+
+/// One scheduler step around an arbitrary atomic section `f` (returns result, value read,
+/// value written, success flag) on the location `addr`; logged like an access of the gated atomics.
+#[track_caller]
+pub fn gated_op<R>(addr: usize, kind: Kind, ord: core::sync::atomic::Ordering, f: impl FnOnce() -> (R, u64, u64, bool)) -> R {
+    let loc = core::panic::Location::caller();
+    let a = Access { addr, width: 8, kind, ord, ord_fail: ord, file: loc.file(), line: loc.line() };
+    hook_before(&a);
+    let (r, rd, wr, ok) = f();
+    hook_after(&a, rd, wr, ok);
+    r
+}
+
+pub struct ExecB {
+    pub log: Vec<Rec>,
+    pub choices: Vec<usize>,
+    pub enabled: Vec<Vec<usize>>,
+    pub deadlock: bool,
+    /// threads that were still blocked when no thread could move any more
+    pub blocked_forever: Vec<usize>,
+}
+
+/// `run_threads` with support for `block_until`.
+pub fn run_threads_b(bodies: Vec<Box<dyn FnOnce() + Send>>, choose: &mut dyn FnMut(usize, &[usize], Option<usize>) -> Choice) -> ExecB {
+    let n = bodies.len();
+    let sh = Arc::new(Shared { m: Mutex::new(St { n, parked: vec![false; n], finished: vec![false; n], killed: vec![false; n], grant: None, kill: None, log: Vec::new() }), cv: Condvar::new() });
+    let bsh = Arc::new(BShared { preds: Mutex::new((0..n).map(|_| None).collect()), abort: Mutex::new(vec![false; n]) });
+    let mut handles = Vec::new();
+    for (t, b) in bodies.into_iter().enumerate() {
+        let sh2 = sh.clone();
+        let bsh2 = bsh.clone();
+        handles.push(std::thread::Builder::new().stack_size(256 * 1024).spawn(move || {
+            TID.with(|c| c.set(Some(t)));
+            SH.with(|s| *s.borrow_mut() = Some(sh2.clone()));
+            BSH.with(|s| *s.borrow_mut() = Some(bsh2.clone()));
+            let r = std::panic::catch_unwind(std::panic::AssertUnwindSafe(b));
+            TID.with(|c| c.set(None));
+            let mut st = sh2.m.lock().unwrap();
+            if let Err(e) = r { if !e.is::<BlockedForever>() { st.log.push(Rec::Ret { tid: t, code: u64::MAX }); } }
+            st.finished[t] = true;
+            sh2.cv.notify_all();
+        }).unwrap());
+    }
+    let mut choices = Vec::new();
+    let mut enabled_log = Vec::new();
+    let mut last: Option<usize> = None;
+    let mut deadlock = false;
+    let mut blocked_forever = Vec::new();
+    let mut step = 0usize;
+    loop {
+        let mut st = sh.m.lock().unwrap();
+        let mut waited = 0;
+        loop {
+            let quiescent = {
+                let p = bsh.preds.lock().unwrap();
+                st.grant.is_none() && st.kill.is_none() && (0..n).all(|t| st.parked[t] || st.finished[t] || st.killed[t] || p[t].is_some())
+            };
+            if quiescent {
+                // no thread runs: wake every blocked thread whose predicate holds now, then wait for it to park
+                let mut woke = false;
+                {
+                    let mut p = bsh.preds.lock().unwrap();
+                    for t in 0..n { if p[t].as_ref().map(|f| f()).unwrap_or(false) { p[t] = None; woke = true; } }
+                }
+                if !woke { break; }
+                sh.cv.notify_all();
+            }
+            let (g, to) = sh.cv.wait_timeout(st, Duration::from_millis(if quiescent { 1 } else { 2000 })).unwrap();
+            st = g;
+            if to.timed_out() && !quiescent { waited += 1; if waited >= 5 { deadlock = true; break; } }
+        }
+        if deadlock { break; }
+        let enabled: Vec<usize> = (0..n).filter(|&t| st.parked[t]).collect();
+        if enabled.is_empty() {
+            let p = bsh.preds.lock().unwrap();
+            blocked_forever = (0..n).filter(|&t| p[t].is_some()).collect();
+            break;
+        }
+        match choose(step, &enabled, last) {
+            Choice::Run(t) => { assert!(enabled.contains(&t)); st.grant = Some(t); choices.push(t); last = Some(t); }
+            Choice::Kill(t) => { assert!(enabled.contains(&t)); st.kill = Some(t); choices.push(usize::MAX - t); }
+        }
+        enabled_log.push(enabled);
+        step += 1;
+        sh.cv.notify_all();
+    }
+    if !blocked_forever.is_empty() {
+        let _st = sh.m.lock().unwrap();
+        let mut ab = bsh.abort.lock().unwrap();
+        for &t in &blocked_forever { ab[t] = true; }
+        sh.cv.notify_all();
+    }
+    let killed: Vec<bool> = sh.m.lock().unwrap().killed.clone();
+    for (t, h) in handles.into_iter().enumerate() { if !killed[t] && !deadlock { let _ = h.join(); } }
+    let log = std::mem::take(&mut sh.m.lock().unwrap().log);
+    ExecB { log, choices, enabled: enabled_log, deadlock, blocked_forever }
+}
+
+/// `explore` over `run_threads_b`: all schedules with at most `bound` preemptions (leaving a
+/// thread that became blocked is not a preemption).
+pub fn explore_b(bound: usize, max_execs: usize, mk: &mut dyn FnMut() -> Vec<Box<dyn FnOnce() + Send>>, visit: &mut dyn FnMut(&ExecB)) -> usize {
+    let mut prefix: Vec<usize> = Vec::new();
+    let mut execs = 0usize;
+    loop {
+        let pfx = prefix.clone();
+        let mut cands_log: Vec<Vec<usize>> = Vec::new();
+        let ex = {
+            let mut chooser = |step: usize, enabled: &[usize], last: Option<usize>| -> Choice {
+                let default = match last { Some(l) if enabled.contains(&l) => l, _ => enabled[0] };
+                let mut cands = vec![default];
+                for &t in enabled { if t != default { cands.push(t); } }
+                let c = if step < pfx.len() && enabled.contains(&pfx[step]) { pfx[step] } else { default };
+                cands_log.push(cands);
+                Choice::Run(c)
+            };
+            run_threads_b(mk(), &mut chooser)
+        };
+        execs += 1;
+        visit(&ex);
+        if execs >= max_execs { return execs; }
+        let ch = &ex.choices;
+        let mut pre = vec![0usize; ch.len() + 1];
+        for i in 0..ch.len() {
+            let default = cands_log[i][0];
+            let prev_enabled = i > 0 && ex.enabled[i].contains(&ch[i - 1]);
+            pre[i + 1] = pre[i] + if ch[i] != default && prev_enabled { 1 } else { 0 };
+        }
+        let mut found = None;
+        for i in (0..ch.len()).rev() {
+            let cands = &cands_log[i];
+            let k = cands.iter().position(|&t| t == ch[i]).unwrap();
+            let prev_enabled = i > 0 && ex.enabled[i].contains(&ch[i - 1]);
+            for j in k + 1..cands.len() {
+                let cost = if prev_enabled { 1 } else { 0 };
+                if pre[i] + cost <= bound { found = Some((i, cands[j])); break; }
+            }
+            if found.is_some() { break; }
+        }
+        match found {
+            Some((i, t)) => { prefix = ch[..i].to_vec(); prefix.push(t); }
+            None => return execs,
+        }
+    }
+}
+
+/// one execution under a seeded random schedule, with blocking support
+pub fn run_random_b(seed: u64, bodies: Vec<Box<dyn FnOnce() + Send>>) -> ExecB {
+    let mut rng = Rng(seed);
+    let mut chooser = |_step: usize, enabled: &[usize], last: Option<usize>| -> Choice {
+        match last {
+            Some(l) if enabled.contains(&l) && rng.below(3) != 0 => Choice::Run(l),
+            _ => Choice::Run(enabled[rng.below(enabled.len() as u64) as usize]),
+        }
+    };
+    run_threads_b(bodies, &mut chooser)
+}
+
+/// `print_exec` for ExecB.  Accesses of files whose path ends with one of `skip_files` (e.g.
+/// the logger's level global) are scheduling points but not part of the compared trace.  With
+/// `xline` the blocked-forever verdict is printed as `X blocked-forever t`; a harness whose
+/// driver expects the verdict inside its final-observation line passes false.
+pub fn print_exec_b(ex: &ExecB, out: &mut impl std::io::Write, skip_files: &[&str], xline: bool) {
+    for r in &ex.log {
+        match r {
+            Rec::Acc { tid, file, line, addr, kind, ord, ord_fail, rd, wr, ok, .. } => {
+                if skip_files.iter().any(|s| file.ends_with(s)) { continue; }
+                let f = file.rsplit('/').next().unwrap_or(file);
+                let _ = writeln!(out, "E {} {}:{} {} {} {} {} {} {} {}", tid, f, line, addr, kind_name(*kind), ord_name(*ord), ord_name(*ord_fail), rd, wr, if *ok { 1 } else { 0 });
+            }
+            Rec::Ret { tid, code } => { let _ = writeln!(out, "R {} {}", tid, if *code == u64::MAX { "P".to_string() } else { code.to_string() }); }
+        }
+    }
+    if ex.deadlock { let _ = writeln!(out, "X deadlock"); }
+    if xline { for t in &ex.blocked_forever { let _ = writeln!(out, "X blocked-forever {}", t); } }
+}
